@@ -110,29 +110,33 @@ Definition sig_defaults (sig : pysig) : kmap :=
 Fixpoint mapi {A B} (f : nat -> A -> B) (i : nat) (l : list A) : list B :=
   match l with [] => [] | x :: r => f i x :: mapi f (S i) r end.
 
-Definition keygen (sig : pysig) (ignored : list ign) (c : call) : list pyval * kmap :=
+(* the decomposition of the ignore specification (names and indices cross-populated) *)
+Definition ig_names1 (ignored : list ign) : list str :=
+  filter (fun n => negb (str_eqb n star) && negb (str_eqb n starstar)) (ign_names ignored).
+Definition ig_star (ignored : list ign) : bool := str_in star (ign_names ignored).
+Definition ig_starstar (ignored : list ign) : bool := str_in starstar (ign_names ignored).
+Definition indexed (explicit : list str) : list (nat * str) := combine (seq 0 (length explicit)) explicit.
+Definition names_to_ignore (explicit : list str) (ignored : list ign) : list str :=
+  ig_names1 ignored ++ flat_map (fun p => if nat_in (fst p) (ign_idx ignored) then [snd p] else []) (indexed explicit).
+Definition index_to_ignore (explicit : list str) (ignored : list ign) : list nat :=
+  ign_idx ignored ++ flat_map (fun p => if str_in (snd p) (ig_names1 ignored) then [fst p] else []) (indexed explicit).
+
+(* [order]: the order in which the SET names_to_ignore is iterated - the one place where the
+   interpreter's hash seed enters _keygen *)
+Definition keygen_ord (sig : pysig) (ignored : list ign) (order : list str) (c : call) : list pyval * kmap :=
   let '(args, kwds) := c in
   let explicit := sig_explicit sig in
   (* mix-in the function's defaults to the user provided kwds *)
   let user_kwds := kupdate (sig_defaults sig) kwds in
-  let names0 := ign_names ignored in
-  let idx0 := ign_idx ignored in
-  let varargs_to_ignore := str_in star names0 in
-  let varkwds_to_ignore := str_in starstar names0 in
-  let names1 := filter (fun n => negb (str_eqb n star) && negb (str_eqb n starstar)) names0 in
-  (* cross-populate names_to_ignore and index_to_ignore for explicitly_named *)
-  let _index := flat_map (fun p => if str_in (snd p) names1 then [fst p] else []) (combine (seq 0 (length explicit)) explicit) in
-  let _names := flat_map (fun p => if nat_in (fst p) idx0 then [snd p] else []) (combine (seq 0 (length explicit)) explicit) in
-  let names_to_ignore := names1 ++ _names in
-  let index_to_ignore := idx0 ++ _index in
+  let idx := index_to_ignore explicit ignored in
   (* NULL out the ignored args *)
-  let user_args := mapi (fun i v => if nat_in i index_to_ignore then VNull else v) 0 args in
-  let user_args := if varargs_to_ignore then firstn (length explicit) user_args else user_args in
+  let user_args := mapi (fun i v => if nat_in i idx then VNull else v) 0 args in
+  let user_args := if ig_star ignored then firstn (length explicit) user_args else user_args in
   (* NULL out the ignored kwds that are present *)
   let _keys := kkeys user_kwds ++ explicit in
-  let user_kwds := fold_left (fun m k => if str_in k _keys then kset m k VNull else m) names_to_ignore user_kwds in
+  let user_kwds := fold_left (fun m k => if str_in k _keys then kset m k VNull else m) order user_kwds in
   (* if ignoring **kwds, then pop all caller keywords that are neither explicitly named nor keyword-only *)
-  let user_kwds := if varkwds_to_ignore
+  let user_kwds := if ig_starstar ignored
                    then fold_left (fun m kv => if str_in (fst kv) explicit || str_in (fst kv) (names_of (s_kwonly sig))
                                                then m else kdel m (fst kv)) kwds user_kwds
                    else user_kwds in
@@ -140,6 +144,9 @@ Definition keygen (sig : pysig) (ignored : list ign) (c : call) : list pyval * k
   let user_kwds := kupdate user_kwds (zip_names explicit user_args) in
   let user_args := skipn (length explicit) user_args in
   (user_args, user_kwds).
+
+Definition keygen (sig : pysig) (ignored : list ign) (c : call) : list pyval * kmap :=
+  keygen_ord sig ignored (names_to_ignore (sig_explicit sig) ignored) c.
 
 (* ---------------------------------------------------------------- klepto.keymaps.keymap *)
 Record kcfg := mkK { k_typed : bool; k_flat : bool; k_mark : bool (* a sentinel is configured *) }.
